@@ -119,3 +119,34 @@ seed(66, "decrypt loop walks the schedule of a different bound (rounds hard-code
      ("src/skinny128-cipher.c", "    schedule = &(ks->schedule[ks->rounds - 1]);\n    for (index = ks->rounds; index > 0; --index, --schedule) {", "    schedule = &(ks->schedule[SKINNY128_MAX_ROUNDS - 1]);\n    for (index = SKINNY128_MAX_ROUNDS; index > 0; --index, --schedule) {"))
 seed(67, "tweaked key set path forgets the upper length bound in skinny128_set_tweaked_key", ["C10.R1", "C14.R2"],
      ("src/skinny128-cipher.c", "    if (!ks || !key || key_size < SKINNY128_BLOCK_SIZE ||\n            key_size > (SKINNY128_BLOCK_SIZE * 2)) {", "    if (!ks || !key || key_size < SKINNY128_BLOCK_SIZE ||\n            key_size > (SKINNY128_BLOCK_SIZE * 3)) {"))
+
+S64V = "src/skinny64-ctr-vec128.c"
+seed(18, "ctx->offset = BATCH removed from skinny64_ctr_vec128_set_tweak", ["C05.R1", "C04.R4"],
+     (S64V, "    if (!skinny64_set_tweak(&(ctx->kt), tweak, tweak_size))\n        return 0;\n\n    /* Reset the keystream */\n    ctx->offset = SKINNY64_CTR_BLOCK_SIZE;\n    return 1;",
+      "    if (!skinny64_set_tweak(&(ctx->kt), tweak, tweak_size))\n        return 0;\n\n    return 1;"))
+seed(19, "ctx->offset = BATCH removed from mantis_ctr_def_init", ["C05.R2"],
+     ("src/mantis-ctr.c", "    ctx->offset = MANTIS_BLOCK_SIZE;\n    ctr->ctx = ctx;\n    return 1;", "    ctr->ctx = ctx;\n    return 1;"))
+seed(20, "lane 3 increment removed from the refill of skinny128_ctr_vec128_encrypt", ["C05.R3"],
+     (V128, "            skinny128_ctr_increment(ctx->counter, 2, 4);\n            skinny128_ctr_increment(ctx->counter, 3, 4);\n\n            /* XOR", "            skinny128_ctr_increment(ctx->counter, 2, 4);\n\n            /* XOR"))
+seed(21, "lane stagger (3,3) -> (3,2) in skinny128_ctr_vec128_set_counter", ["C05.R4"],
+     (V128, "    skinny128_ctr_increment(ctx->counter, 3, 3);", "    skinny128_ctr_increment(ctx->counter, 3, 2);"))
+seed(22, "ctx->offset = size removed from the partial path of skinny128_ctr_def_encrypt", ["C05.R5"],
+     ("src/skinny128-ctr.c", "                skinny_xor(out, in, ctx->ecounter, size);\n                ctx->offset = size;\n                break;", "                skinny_xor(out, in, ctx->ecounter, size);\n                break;"))
+seed(23, "counter loop posn > 8 instead of posn > 0 in skinny128_inc_counter", ["C05.R6"],
+     ("src/skinny-internal.h", "    for (posn = 16; posn > 0; ) {", "    for (posn = 16; posn > 8; ) {"))
+seed(68, "left-over path: offset = temp instead of offset += temp (mantis vec128)", ["C05.R5"],
+     ("src/mantis-ctr-vec128.c", "            ctx->offset += temp;", "            ctx->offset = temp;"))
+seed(69, "whole-batch xor of block 2 reads keystream block 3 (skinny128 vec128)", ["C05.R5", "C05.R7"],
+     (V128, "                              ctx->ecounter + SKINNY128_BLOCK_SIZE * 2);", "                              ctx->ecounter + SKINNY128_BLOCK_SIZE * 3);"))
+seed(70, "input cursor not advanced on the left-over path (skinny64 generic)", ["C05.R5"],
+     ("src/skinny64-ctr.c", "            ctx->offset += temp;\n            out += temp;\n            in += temp;", "            ctx->offset += temp;\n            out += temp;"))
+seed(71, "refill when offset > BATCH instead of >= (skinny64 vec128: reads one byte past the buffer)", ["C05.R5", "C05.R3", "C09.R3"],
+     (S64V, "        if (ctx->offset >= SKINNY64_CTR_BLOCK_SIZE) {", "        if (ctx->offset > SKINNY64_CTR_BLOCK_SIZE) {"))
+seed(72, "set_counter copies the short counter to the front (right padding) in skinny128_ctr_def", ["C05.R4"],
+     ("src/skinny128-ctr.c", "        memset(ctx->counter, 0, SKINNY128_BLOCK_SIZE - size);\n        memcpy(ctx->counter + SKINNY128_BLOCK_SIZE - size, counter, size);", "        memcpy(ctx->counter, counter, size);"))
+seed(73, "mantis vec128 refill encrypts under a stale copy: increments before the encryption", ["C05.R3"],
+     ("src/mantis-ctr-vec128.c", "            mantis_ecb_encrypt_eight(ctx->ecounter, ctx->counter, &(ctx->ks));\n            mantis_ctr_increment(ctx->counter, 0, 8);", "            mantis_ctr_increment(ctx->counter, 0, 8);\n            mantis_ecb_encrypt_eight(ctx->ecounter, ctx->counter, &(ctx->ks));"))
+seed(74, "vec256 refill advances lanes by 4 instead of 8", ["C05.R3"],
+     ("src/skinny128-ctr-vec256.c", "            skinny128_ctr_increment(ctx->counter, 5, 8);", "            skinny128_ctr_increment(ctx->counter, 5, 4);"))
+seed(75, "set_counter right-pads: memset all then memcpy to the front (skinny64 generic)", ["C05.R4"],
+     ("src/skinny64-ctr.c", "        memset(ctx->counter, 0, SKINNY64_BLOCK_SIZE - size);\n        memcpy(ctx->counter + SKINNY64_BLOCK_SIZE - size, counter, size);", "        memset(ctx->counter, 0, SKINNY64_BLOCK_SIZE);\n        memcpy(ctx->counter, counter, size);"))
